@@ -555,6 +555,8 @@ def _generic_coguard(lit, subject_params):
                 return True
     if is_count(c):
         return True  # `if x.size and ...`
+    if c.op == "call" and call_name(c) in (".split", ".rsplit", ".strip", ".lstrip", ".rstrip", "builtins.list", "builtins.tuple"):
+        return True  # `if parts and ...`: the truth value of a sequence is its non-emptiness
     return False
 
 
